@@ -548,6 +548,22 @@ func generate(seed int64, thorough bool) []string {
 	if !conc {
 		o = append(o, ln("kv", "cur", "40"), ln("kv", "retry", "40")) // PD down for the whole budget
 	}
+	// the updateTS loop end to end: stale-read validations and configuration changes against the running updater
+	for c := 0; c < 6*mul && !conc; c++ {
+		cfg := []string{"7d0", "2710", "36ee80", "2bc", "190", "1f4", "1f5"}[r.Intn(7)] // ms, hex: 2000, 10000, 3600000, 700, 400, 500, 501
+		var steps []string
+		for k := 0; k < 3+r.Intn(5); k++ {
+			switch r.Intn(6) {
+			case 0:
+				steps = append(steps, "s"+[]string{"2000", "400", "10000", "600", "650", "3000"}[r.Intn(6)])
+			case 1:
+				steps = append(steps, "n"+[]string{"800", "50"}[r.Intn(2)])
+			default:
+				steps = append(steps, "v"+[]string{"800", "600", "1500", "450", "100", "5000", "0", "601", "1999"}[r.Intn(9)])
+			}
+		}
+		o = append(o, ln("lp", cfg, strings.Join(steps, ",")))
+	}
 	o = append(o, ln("mo", "200"))
 	nb := 2
 	if thorough {
